@@ -94,8 +94,9 @@ func runC13(t *Trace, r *Rng, tier string, _ []string) {
 		nBatches := r.Range(3, 12)
 		var batches [][]c01Op
 		reopenAt := -1
-		if r.Chance(40) { // the index is closed and opened again somewhere inside the history
-			reopenAt = r.Range(2, nBatches)
+		sinceOpen := 0
+		if r.Chance(60) { // the index is closed and opened again somewhere inside the history
+			reopenAt = r.Range(2, 2+nBatches/2)
 		}
 		for b := 1; b <= nBatches; b++ {
 			if b == reopenAt {
@@ -103,10 +104,16 @@ func runC13(t *Trace, r *Rng, tier string, _ []string) {
 					time.Sleep(300 * time.Millisecond)
 				}
 				must(idx.Close())
-				idx, err = bleve.OpenUsing(dir, kv)
+				if r.Bool() {
+					idx, err = bleve.OpenUsing(dir, kv)
+				} else {
+					idx, err = bleve.Open(dir) // the configuration comes back from index_meta.json (numbers as float64)
+				}
 				must(err)
 				midReopens++
+				sinceOpen = 0
 			}
+			sinceOpen++
 			ops := c01GenOps(r, r.Range(1, 5), idSpace, keySpace)
 			if r.Chance(15) { // a batch that only deletes, and deletes everything: the newest segments die
 				ops = ops[:0]
@@ -148,6 +155,11 @@ func runC13(t *Trace, r *Rng, tier string, _ []string) {
 		cat := fmt.Sprintf("rb/keep%d", keep)
 		if unsafe {
 			cat += "-unsafe"
+		}
+		// with safe batches every batch since the last open is persisted under its own epoch: the configured
+		// number of rollback points is on offer as soon as that many batches were written
+		if !unsafe {
+			t.Emit(cat+"/points-offered", true, fmt.Sprintf("offered %d %d %d", len(points), keep, sinceOpen), "ok")
 		}
 		for pi, p := range points {
 			pointsSeen++
